@@ -8,7 +8,7 @@ pub struct VxAddedIter { _p: u8 }          // AddedItemsIter (only used for debu
 
 impl ValidationError {
     #[verifier::external_body]
-    pub fn prepend_msg<M>(self, premsg: M) -> ValidationError { unimplemented!() }
+    pub fn prepend_msg<M>(self, premsg: M) -> (r: ValidationError) ensures ve_unknown_dest(r) == ve_unknown_dest(self) { unimplemented!() }
 }
 impl VxSecp {
     #[verifier::external_body]
